@@ -76,14 +76,38 @@ theorem mapStored_mismatch (pick : Pick) (text b : List Byte) (ix : Index)
   · unfold mapSelf; simp [ht]
   · simp [ht, hp, hm]
 
-theorem storedMatches_iff (text : List Byte) (ix : Index) :
-    storedMatches text ix = true ↔ storedModuleLine ix ≠ [] ∧ storedModuleLine ix <+: text := by
-  unfold storedMatches
+theorem storedMatchesFirstLine_iff (text : List Byte) (ix : Index) :
+    storedMatchesFirstLine text ix = true ↔ storedModuleLine ix ≠ [] ∧ storedModuleLine ix <+: text := by
+  unfold storedMatchesFirstLine
   simp only [Bool.and_eq_true, Bool.not_eq_true', List.isEmpty_eq_false_iff, beq_iff_eq]
   rw [List.prefix_iff_eq_take]
   constructor
   · rintro ⟨h1, h2⟩; exact ⟨h1, h2.symm⟩
   · rintro ⟨h1, h2⟩; exact ⟨h1, h2.symm⟩
+
+theorem storedMatches_iff (text : List Byte) (ix : Index) :
+    storedMatches text ix = true ↔
+      storedModuleLine ix ≠ [] ∧ storedModuleLine ix <+: text ∧ storedIdAgrees ix = true := by
+  unfold storedMatches
+  rw [Bool.and_eq_true, storedMatchesFirstLine_iff]
+  constructor
+  · rintro ⟨⟨h1, h2⟩, h3⟩; exact ⟨h1, h2, h3⟩
+  · rintro ⟨h1, h2, h3⟩; exact ⟨⟨h1, h2⟩, h3⟩
+
+theorem storedIdAgrees_iff (ix : Index) :
+    storedIdAgrees ix = true ↔
+      ∃ v, debugIdOfModuleLine (storedModuleLine ix) = some v ∧ indexDebugId ix = some v := by
+  unfold storedIdAgrees
+  cases debugIdOfModuleLine (storedModuleLine ix) with
+  | none => simp
+  | some a =>
+    cases indexDebugId ix with
+    | none => simp
+    | some b =>
+      simp only [beq_iff_eq, Option.some.injEq]
+      constructor
+      · intro h; exact ⟨a, rfl, h.symm⟩
+      · rintro ⟨v, h1, h2⟩; rw [h1, h2]
 
 /-- what `index` yields in terms of the creator's final state -/
 theorem index_spec (pick : Pick) (chunks : List (List Byte)) :
